@@ -13,6 +13,7 @@ import (
 // when the server is blocked in Read with nothing pending, records every Write
 // call, and injects read / write faults.
 type Conn struct {
+	rtimeout bool // read faults are of the timeout kind
 	mu   sync.Mutex
 	cond *sync.Cond
 
@@ -34,6 +35,16 @@ type Conn struct {
 }
 
 var errReadFault = errors.New("verif: read fault")
+
+// errReadTimeout: the same fault as a net.Error of the timeout kind (an absolute deadline that has expired,
+// TCP keep-alive / user timeout): every later Read fails the same way, nobody re-arms it
+type timeoutErr struct{}
+
+func (timeoutErr) Error() string   { return "verif: read fault" }
+func (timeoutErr) Timeout() bool   { return true }
+func (timeoutErr) Temporary() bool { return true }
+
+var errReadTimeout net.Error = timeoutErr{}
 var errWriteFault = errors.New("verif: write fault")
 
 func NewConn(segs [][]byte, rfail bool, wfail int) *Conn {
@@ -64,6 +75,9 @@ func (c *Conn) Read(p []byte) (int, error) {
 			continue
 		}
 		if c.rfail {
+			if c.rtimeout {
+				return 0, errReadTimeout
+			}
 			return 0, errReadFault
 		}
 		if c.clientDone {
